@@ -259,25 +259,32 @@ KnotsStep(ev) ==
         tolp(col) == RAdd(RMul(Tol6, ps[col]), Tiny)
         told(col, d, Ti) == RAdd(RMul(Tol6, RDiv(ps[col], RPow(Ti, d))), Tiny)
         close(x, y, t) == RLe(RAbs(RSub(x, y)), t)
+        \* The right end of piece i is reached through the breakpoints (t0 + cumulative sums, rounded at the magnitude of the start time):
+        \* the local time used there is bp[i+1] - bp[i], not the duration T_i the piece was built for.  The difference dt_i is known exactly
+        \* and moves the d-th derivative by dt_i x (d+1)-th derivative: that much (x2, plus its natural scale) is added to the tolerance.
+        dtL == Force([i \in 1..N |-> RAbs(RSub(RSub(o.bp[i + 1], o.bp[i]), pr.T[i]))])
+        nxt == Force([i \in 1..N |-> [d \in 0..(s - 1) |-> IF dtL[i] = Zero THEN [col \in 1..D |-> Zero] ELSE SegEval(o.C, s, i, pr.T[i], d + 1)]])
+        xt(col, d, i) == IF dtL[i] = Zero THEN Zero
+                         ELSE RMul(RMul("2", dtL[i]), RAdd(RAbs(nxt[i][d][col]), RDiv(ps[col], RPow(pr.T[i], d + 1))))
         info(code, i, d) == [order |-> o.order, dim |-> o.dim, N |-> N, i |-> i, d |-> d]
         kpos == [i \in 1..(N + 1) |-> Cand("C01", "knot.pos",
-                    \A col \in 1..D : close(H(ev.out.kv[i][1][col]), pr.P[i][col], tolp(col)), info("kv", i - 1, 0))]
+                    \A col \in 1..D : close(H(ev.out.kv[i][1][col]), pr.P[i][col], RAdd(tolp(col), IF i = N + 1 THEN xt(col, 0, N) ELSE Zero)), info("kv", i - 1, 0))]
         lpos == [i \in 1..N |-> Cand("C01", "knot.leftpos",
-                    \A col \in 1..D : close(H(ev.out.lv[i][1][col]), pr.P[i + 1][col], tolp(col)), info("lv", i, 0))]
+                    \A col \in 1..D : close(H(ev.out.lv[i][1][col]), pr.P[i + 1][col], RAdd(tolp(col), xt(col, 0, i))), info("lv", i, 0))]
         rpos == [i \in 1..N |-> Cand("C01", "knot.rightpos",
                     \A col \in 1..D : close(H(ev.out.rv[i][1][col]), pr.P[i][col], tolp(col)), info("rv", i - 1, 0))]
         bstart == [d \in 1..(s - 1) |-> Cand("C01", "knot.bcstart",
                     \A col \in 1..D : close(H(ev.out.kv[1][d + 1][col]), pr.BS[d][col], told(col, d, pr.T[1])), info("kv", 0, d))]
         bend == [d \in 1..(s - 1) |-> Cand("C01", "knot.bcend",
-                    \A col \in 1..D : /\ close(H(ev.out.kv[N + 1][d + 1][col]), pr.BE[d][col], told(col, d, pr.T[N]))
-                                      /\ close(H(ev.out.lv[N][d + 1][col]), pr.BE[d][col], told(col, d, pr.T[N])),
+                    \A col \in 1..D : /\ close(H(ev.out.kv[N + 1][d + 1][col]), pr.BE[d][col], RAdd(told(col, d, pr.T[N]), xt(col, d, N)))
+                                      /\ close(H(ev.out.lv[N][d + 1][col]), pr.BE[d][col], RAdd(told(col, d, pr.T[N]), xt(col, d, N))),
                     info("kv", N, d))]
         \* derivatives 1..s-1 agree from both sides at interior knots (C02, the part visible through evaluate)
         both == [q \in 1..((N - 1) * (s - 1)) |->
                     LET i == ((q - 1) \div (s - 1)) + 1  d == q - (i - 1) * (s - 1)
                     IN Cand("C02", "knot.bothsides",
                            \A col \in 1..D : close(H(ev.out.lv[i][d + 1][col]), H(ev.out.rv[i + 1][d + 1][col]),
-                                                   told(col, d, RMin(pr.T[i], pr.T[i + 1]))), info("lr", i, d))]
+                                                   RAdd(told(col, d, RMin(pr.T[i], pr.T[i + 1])), xt(col, d, i))), info("lr", i, d))]
         \* (a segment's duration is the difference of its breakpoints, up to the rounding of however the implementation obtains it)
         sd == Cand("C01", "knot.segdur", Len(ev.out.segdur) = N /\ \A i \in 1..N :
                        RLe(RAbs(RSub(H(ev.out.segdur[i]), RSub(o.bp[i + 1], o.bp[i]))), RMul("2", UlpOfMax(o.bp[i + 1], o.bp[i]))), info("sd", 0, 0))
